@@ -888,15 +888,20 @@ impl Default for G1Projective {
 
 impl ConstantTimeEq for G1Projective {
     fn ct_eq(&self, other: &Self) -> Choice {
-        // Is (x, y, z) equal to (x', y, z') when converted to affine?
-        // => (x/z , y/z) equal to (x'/z' , y'/z')
-        // => (xz' == x'z) & (yz' == y'z)
+        // blst keeps points in Jacobian coordinates: (x, y, z) denotes the
+        // affine point (x/z^2, y/z^3). Is (x, y, z) equal to (x', y', z') when
+        // converted to affine?
+        // => (x/z^2 , y/z^3) equal to (x'/z'^2 , y'/z'^3)
+        // => (xz'^2 == x'z^2) & (yz'^3 == y'z^3)
 
-        let x1 = self.x() * other.z();
-        let y1 = self.y() * other.z();
+        let z1_sq = self.z().square();
+        let z2_sq = other.z().square();
 
-        let x2 = other.x() * self.z();
-        let y2 = other.y() * self.z();
+        let x1 = self.x() * z2_sq;
+        let y1 = self.y() * z2_sq * other.z();
+
+        let x2 = other.x() * z1_sq;
+        let y2 = other.y() * z1_sq * self.z();
 
         let self_is_zero = self.is_identity();
         let other_is_zero = other.is_identity();
@@ -918,10 +923,8 @@ impl CurveExt for G1Projective {
     }
 
     fn jacobian_coordinates(&self) -> (Self::Base, Self::Base, Self::Base) {
-        // Homogeneous to Jacobian
-        let x = self.x() * self.z();
-        let y = self.y() * self.z().square();
-        (x, y, self.z())
+        // The internal (blst) representation is already Jacobian.
+        (self.x(), self.y(), self.z())
     }
 
     fn hash_to_curve<'a>(domain_prefix: &'a str) -> Box<dyn Fn(&[u8]) -> Self + 'a> {
@@ -947,15 +950,9 @@ impl CurveExt for G1Projective {
     }
 
     fn new_jacobian(x: Self::Base, y: Self::Base, z: Self::Base) -> CtOption<Self> {
-        // Jacobian to homogeneous
-        let z_inv = z.invert().unwrap_or(Fp::ZERO);
-        let p_x = x * z_inv;
-        let p_y = y * z_inv.square();
-        let p = G1Projective::from_raw_unchecked(
-            p_x,
-            Fp::conditional_select(&p_y, &Fp::ONE, z.is_zero()),
-            z,
-        );
+        // The internal (blst) representation is Jacobian: store the coordinates
+        // as they are (z = 0 is the point at infinity).
+        let p = G1Projective::from_raw_unchecked(x, y, z);
         CtOption::new(p, p.is_on_curve())
     }
 }
